@@ -121,3 +121,9 @@ type PContextRegex interface {
 	M1(source InCtx, ctxValue *Ctx) OutCtx
 	M2(source InCtx2, ctxValue *Ctx) OutCtx2
 }
+
+// goverter:converter
+type PEnumShared interface {
+	M1(source []Color) []Shade
+	M2(source map[string]Color) map[string]Shade
+}
